@@ -20,7 +20,7 @@ objects, a loop over an unknown iterable marks the state imprecise (`mark_imprec
 import ast
 from collections import namedtuple
 
-from .paths import TOP, NONE, NOVALUE, Const, TupleV, Opaque, Exc, ORD, ClassRef, Env
+from .paths import TOP, NONE, NOVALUE, Const, TupleV, Opaque, Exc, ORD, ClassRef, Env, SliceV
 
 DictV = namedtuple("DictV", "items")  # content of a dict object: tuple of (key value, value) pairs, keys pairwise distinct
 Ref = namedtuple("Ref", "kind site n")  # kind: 'list' | 'dict' | 'ddict:list' | 'ddict:dict'
@@ -116,6 +116,32 @@ def deref(v, state, depth=0):
     return v
 
 
+def carry_over(state, keep):
+    """The part of `state` that outlives a call - the bindings whose name satisfies keep(name), with everything they
+    reach on the heap - as a dict for the next call's initial state.  Heap objects are renamed in first-visit order
+    (sharing preserved), allocation counters and loop positions are dropped: two states that denote the same object
+    graph become equal, whatever the calls that built them."""
+    mapping, env = {}, {}
+
+    def conv(v):
+        if isinstance(v, Ref):
+            if v not in mapping:
+                nr = Ref(v.kind, ("kept", len(mapping)), 0)
+                mapping[v] = nr
+                c = content(v, state)
+                env[("heap", nr)] = conv(c) if c is not None else TOP
+            return mapping[v]
+        if isinstance(v, TupleV):
+            return TupleV(tuple(conv(x) for x in v.items))
+        if isinstance(v, DictV):
+            return DictV(tuple((conv(k), conv(x)) for k, x in v.items))
+        return v
+
+    for k in sorted((k for k in state.d if isinstance(k, str) and keep(k))):
+        env[k] = conv(state.d[k])
+    return env
+
+
 def new_object(env, name, kind, cont):
     """Bind `name` in the dict `env` (the initial state under construction) to a fresh list/dict object."""
     ref = Ref(kind, ("arg", name), 0)
@@ -128,6 +154,19 @@ class ExactCollections:
     """Mixin; list it *before* the Domain base class."""
 
     comp_exact = True
+
+    comp_sequential = True  # comprehensions over exact iterables are evaluated element by element (paths._comp_sequential)
+    slice_values = True  # slice bounds are values (paths.SliceV)
+    # sizes compared with a constant >= scenario_limit are beyond what a two- or three-element scenario says anything
+    # about: both outcomes are explored and the path is marked imprecise.  The constants met are collected in
+    # `thresholds`, so that a rule can come back with a scenario on either side of them and the limit lifted
+    scenario_limit = SCENARIO_LIMIT
+    thresholds = None
+
+    def _threshold(self, c):
+        if self.thresholds is None:
+            self.thresholds = set()
+        self.thresholds.add(abs(c))
 
     def mark_imprecise(self, state, node):
         return state
@@ -197,7 +236,8 @@ class ExactCollections:
             other = r if isinstance(l, LenV) else l
             a = Const(l.n) if isinstance(l, LenV) else l
             b = Const(r.n) if isinstance(r, LenV) else r
-            if isinstance(other, Const) and isinstance(other.v, int) and not isinstance(other.v, bool) and abs(other.v) >= SCENARIO_LIMIT and isinstance(op, (ast.Lt, ast.LtE, ast.Gt, ast.GtE, ast.Eq, ast.NotEq)):
+            if isinstance(other, Const) and isinstance(other.v, int) and not isinstance(other.v, bool) and abs(other.v) >= self.scenario_limit and isinstance(op, (ast.Lt, ast.LtE, ast.Gt, ast.GtE, ast.Eq, ast.NotEq)):
+                self._threshold(other.v)
                 return TOP  # a size threshold beyond the scenario: both outcomes, marked imprecise by refine_compare
             return super().compare(node, op, a, b, state)
         if isinstance(op, (ast.In, ast.NotIn)):
@@ -291,6 +331,17 @@ class ExactCollections:
                     return ok(NONE, self.put(state, obj, TupleV(tuple(reversed(items)))))
                 if attr == "copy" and not args:
                     return [("ok",) + self.alloc(state, node, "list", cont)]
+                if attr == "count" and len(args) == 1:
+                    if all(x == args[0] or distinct(x, args[0]) for x in items) and args[0] is not TOP:
+                        return ok(Const(sum(1 for x in items if x == args[0])))
+                    return ok(TOP)
+                if attr == "index" and len(args) == 1:
+                    for i, x in enumerate(items):
+                        if x == args[0] and x is not TOP:
+                            return ok(Const(i))
+                        if not distinct(x, args[0]):
+                            return ok(TOP)
+                    return [("exc", Exc(ORD, "ValueError", node.lineno), state)]
                 if attr in ("index", "count"):
                     return ok(TOP)
                 if attr == "sort":
@@ -373,6 +424,37 @@ class ExactCollections:
             if fac in ("list", "dict") or not node.args:
                 return [("ok",) + self.alloc(state, node, "ddict:%s" % fac if fac else "dict", DictV(()))]
             return ok(TOP)
+        if ((isinstance(f, ast.Attribute) and f.attr == "groupby" and isinstance(f.value, ast.Name) and f.value.id == "itertools") or (isinstance(f, ast.Name) and f.id == "groupby")) and 1 <= len(args) <= 2:
+            # itertools.groupby over an exact sequence: runs of *consecutive* elements with equal keys.  Each group is
+            # given as a tuple (what a consumer that uses the group before advancing sees)
+            seq, st = self.consume(args[0], state)
+            keyf = args[1] if len(args) == 2 else kwargs.get("key")
+            if seq is not None and hasattr(self, "apply_lambda"):
+                keys = []
+                for x in seq:
+                    if keyf is None or keyf == NONE:
+                        keys.append(x)
+                        continue
+                    rr = self.apply_lambda(node, keyf, [x], {}, st) if hasattr(keyf, "closure") else None
+                    if not rr or len(rr) != 1 or rr[0][0] != "ok":
+                        keys = None
+                        break
+                    keys.append(deref(rr[0][1], rr[0][2]) if isinstance(rr[0][1], Ref) else rr[0][1])
+                    st = rr[0][2]
+                if keys is not None:
+                    groups = []
+                    decided = True
+                    for k, x in zip(keys, seq):
+                        if groups and groups[-1][0] == k and k is not TOP:
+                            groups[-1][1].append(x)
+                        elif not groups or distinct(groups[-1][0], k):
+                            groups.append((k, [x]))
+                        else:
+                            decided = False
+                            break
+                    if decided:
+                        return ok(GenV((node.lineno, node.col_offset), tuple(TupleV((k, TupleV(tuple(xs)))) for k, xs in groups)), st)
+            return ok(TOP, self.mark_imprecise(st, node))
         if isinstance(f, ast.Name) and f.id == "dict" and len(args) <= 1:
             d = None
             if not args:
@@ -420,7 +502,11 @@ class ExactCollections:
                     return ok(LenV(len(seq)))
             if f.id == "range" and 1 <= len(args) <= 3 and all(isinstance(a, (Const, LenV)) and isinstance(a.v if isinstance(a, Const) else a.n, int) for a in args):
                 nums = [a.v if isinstance(a, Const) else a.n for a in args]
-                beyond = any(isinstance(a, LenV) for a in args) and any(isinstance(a, Const) and abs(a.v) >= SCENARIO_LIMIT for a in args)
+                beyond = any(isinstance(a, LenV) for a in args) and any(isinstance(a, Const) and abs(a.v) >= self.scenario_limit for a in args)
+                if beyond:
+                    for a in args:
+                        if isinstance(a, Const) and abs(a.v) >= self.scenario_limit:
+                            self._threshold(a.v)
                 try:
                     vals = tuple(range(*nums))
                 except (ValueError, TypeError):
@@ -491,6 +577,8 @@ class ExactCollections:
     # ---- subscripts -----------------------------------------------------------------------
     def subscript_load_s(self, objval, idxval, node, state):
         """-> (value, may_raise, state)"""
+        if isinstance(idxval, LenV):
+            idxval = Const(idxval.n)
         if isinstance(objval, DictV):
             r = dict_get(objval, idxval)
             return (r[1], False, state) if r[0] == "hit" else ((NOVALUE, "KeyError", state) if r[0] == "miss" else (TOP, True, state))
@@ -520,12 +608,18 @@ class ExactCollections:
                 return TOP, True, state
         if seq is not None:
             if isinstance(node.slice, ast.Slice):
-                from .model import fold, NotConst
+                if isinstance(idxval, SliceV):
+                    bounds = [None if b == NONE else (b.n if isinstance(b, LenV) else (b.v if isinstance(b, Const) else b)) for b in idxval]
+                    if not all(b is None or (isinstance(b, int) and not isinstance(b, bool)) for b in bounds):
+                        return TOP, False, state
+                    lo, hi, stp = bounds
+                else:
+                    from .model import fold, NotConst
 
-                try:
-                    lo, hi, stp = [None if b is None else fold(b) for b in (node.slice.lower, node.slice.upper, node.slice.step)]
-                except NotConst:
-                    return TOP, False, state
+                    try:
+                        lo, hi, stp = [None if b is None else fold(b) for b in (node.slice.lower, node.slice.upper, node.slice.step)]
+                    except NotConst:
+                        return TOP, False, state
                 if all(b is None or (isinstance(b, int) and not isinstance(b, bool)) for b in (lo, hi, stp)) and stp != 0:
                     part = TupleV(tuple(seq[slice(lo, hi, stp)]))
                     if isinstance(objval, Ref):
@@ -542,6 +636,8 @@ class ExactCollections:
         return v, may, state
 
     def subscript_store(self, objval, idxval, value, node, state):
+        if isinstance(idxval, LenV):
+            idxval = Const(idxval.n)
         if isinstance(objval, Ref):
             cont = content(objval, state)
             if cont is None:
@@ -550,6 +646,10 @@ class ExactCollections:
                 if value is not None and isinstance(idxval, Const) and isinstance(idxval.v, int) and -len(cont.items) <= idxval.v < len(cont.items):
                     lst = list(cont.items)
                     lst[idxval.v] = value
+                    return self.put(state, objval, TupleV(tuple(lst)))
+                if value is None and not isinstance(node.slice, ast.Slice) and isinstance(idxval, Const) and isinstance(idxval.v, int) and -len(cont.items) <= idxval.v < len(cont.items):
+                    lst = list(cont.items)  # del lst[i]
+                    del lst[idxval.v]
                     return self.put(state, objval, TupleV(tuple(lst)))
                 return self.put(state, objval, TOP)
             if value is None:  # del d[k]
